@@ -301,7 +301,8 @@ func run(a *Args) error {
 
 	versions := []string{"1.2.0", "1.2.0", "1.2.0", "0.9.0", "2.0.0-rc.1", "v1", "1.2"}
 	minvers := []string{"1.0.0", "1.2.0", "1.10.0", "2.0.0", "1.0", "  ", "x"}
-	capSets := [][]string{{}, {"Other"}, {"TI"}, {"Rev"}, {"TI", "Rev"}, {"Rev", "TI"}, {"Other", "TI"}, {"Rev", "Other"}, {"TI", "Other", "Rev"}}
+	capSets := [][]string{{}, {"Other"}, {"TI"}, {"Rev"}, {"TI", "Rev"}, {"Rev", "TI"}, {"Other", "TI"}, {"Rev", "Other"}, {"TI", "Other", "Rev"},
+		{"TI", "TI"}, {"Rev", "TI", "Rev"}} // the last two are outside wf_sc: correspondence only
 	otherSets := [][]string{{}, {}, {"foo"}, {"bar", "foo"}}
 
 	// a rig is one verifier instance with its injected components; a fresh one per case, except in
